@@ -113,6 +113,28 @@ pub fn file_text(kind: &str, n: u32, variant: u32) -> String {
             1 => format!("---@type LibCls{n}\nlocal l{n} = {{}}\nreturn l{n}.id\n"),
             _ => format!("return LibGlob{n}\n"),
         },
+        // ---- a partial class that gets a different base class from each of two files; both
+        // bases declare the member `v` with different types
+        "inh_bases" => match v {
+            0 => format!("---@class BaseS{n}\n---@field v string\n\n---@class BaseI{n}\n---@field v integer\n---@field only_i boolean\n"),
+            1 => format!("---@class BaseS{n}\n---@field v string\n---@field extra number\n\n---@class BaseI{n}\n---@field v integer\n"),
+            _ => format!("---@class BaseS{n}\n---@class BaseI{n}\n"),
+        },
+        "inh_part_a" => match v {
+            0 => format!("---@class (partial) Multi{n}: BaseS{n}\n---@field a integer\nlocal A{n} = {{}}\nreturn A{n}\n"),
+            1 => format!("---@class (partial) Multi{n}: BaseS{n}, BaseI{n}\nlocal A{n} = {{}}\nreturn A{n}\n"),
+            _ => format!("---@class (partial) Multi{n}\nlocal A{n} = {{}}\nreturn A{n}\n"),
+        },
+        "inh_part_b" => match v {
+            0 => format!("---@class (partial) Multi{n}: BaseI{n}\n---@field b string\nlocal B{n} = {{}}\nreturn B{n}\n"),
+            1 => format!("---@class (partial) Multi{n}: BaseI{n}\nlocal B{n} = {{}}\nfunction B{n}:m() return self.v end\nreturn B{n}\n"),
+            _ => format!("local B{n} = {{}}\nreturn B{n}\n"),
+        },
+        "inh_use" => match v {
+            0 => format!("---@type Multi{n}\nlocal m{n} = {{}}\n---@type string\nlocal s{n} = m{n}.v\nlocal o{n} = m{n}.only_i\nreturn s{n}, o{n}\n"),
+            1 => format!("---@type Multi{n}\nlocal m{n} = {{}}\nlocal w{n} = m{n}.v\nreturn w{n}\n"),
+            _ => format!("---@param m Multi{n}\nlocal function f{n}(m)\n    return m.v, m.a, m.b\nend\nreturn f{n}\n"),
+        },
         _ => format!("return {n}\n"),
     }
 }
@@ -130,11 +152,17 @@ pub fn group(kind: &str, n: u32) -> Vec<FileSpec> {
         "broken" => vec![f(format!("d/broken{n}.lua"), "broken")],
         "meta" => vec![f(format!("meta/m{n}.lua"), "meta"), f(format!("meta/use{n}.lua"), "meta_use")],
         "lib" => vec![f(format!("lib/libmod{n}.lua"), "lib"), f(format!("app/libuse{n}.lua"), "lib_use")],
+        "inherit" => vec![
+            f(format!("inh/bases{n}.lua"), "inh_bases"),
+            f(format!("inh/part_a{n}.lua"), "inh_part_a"),
+            f(format!("inh/part_b{n}.lua"), "inh_part_b"),
+            f(format!("inh/use{n}.lua"), "inh_use"),
+        ],
         _ => vec![],
     }
 }
 
-pub const GROUP_KINDS: &[&str] = &["class", "glob", "mod", "cycle", "types", "diag", "broken", "meta", "lib"];
+pub const GROUP_KINDS: &[&str] = &["class", "glob", "mod", "cycle", "types", "diag", "broken", "meta", "lib", "inherit"];
 
 /// Draw a workspace of `lo..=hi` files.
 pub fn gen_workspace(r: &mut Rng, lo: usize, hi: usize) -> Vec<FileSpec> {
